@@ -70,10 +70,32 @@ fn profile_for(prop: &str) -> &'static Profile {
 
 const PHASE: u64 = 9;
 
+/// Self-validation support only: scratch builds of the engine carry breaking edits that are
+/// switched on by the environment variable RV_BREAK. Some of them would already break genesis /
+/// the world set-up, so `RV_BREAK_LATE=<name>` arms the break only once every shard has built
+/// its world (all shards wait here, nothing reads the environment meanwhile). Without
+/// RV_BREAK_LATE this is a no-op.
+fn late_break_barrier(n_shards: usize) {
+    use std::sync::atomic::{AtomicUsize, Ordering};
+    static ARRIVED: AtomicUsize = AtomicUsize::new(0);
+    static ARMED: AtomicUsize = AtomicUsize::new(0);
+    let Ok(name) = std::env::var("RV_BREAK_LATE") else { return };
+    let k = ARRIVED.fetch_add(1, Ordering::SeqCst) + 1;
+    let t0 = std::time::Instant::now();
+    if k == n_shards {
+        std::env::set_var("RV_BREAK", &name);
+        ARMED.store(1, Ordering::SeqCst);
+    }
+    while ARMED.load(Ordering::SeqCst) == 0 && t0.elapsed() < Duration::from_secs(600) {
+        std::thread::sleep(Duration::from_millis(20));
+    }
+}
+
 /// Runs shard `idx` for at most `cases` iterations (or until `stop_after` for replays).
 fn run_shard(args: &Args, prop: &str, idx: usize, rng: &mut Rng, shard: &mut Shard, cases: u64, only_verdict_of: Option<u64>) {
     let p = profile_for(prop);
     let mut w = World::new(shard, rng);
+    late_break_barrier(if only_verdict_of.is_some() { 1 } else { args.threads });
     w.ledger.walk_every = args.tier.pick(400, 1500);
     let mut it = 0u64;
     while it < cases && (only_verdict_of.is_some() || !shard.time_up()) {
